@@ -215,4 +215,75 @@ theorem decode_encodeRecs (rs : List DirRec) (hok : ∀ r ∈ rs, RecOk r) : dec
   have := decode_from rs hok 0 ((encodeFrom 0 rs ++ zeros (sectors L * sectorSize - L)).length + 2) (sectors L * sectorSize - L)
     (by simp only [List.length_append, zeros_length, hL]; omega) hk.1 (by simpa [hL] using hk.2)
   exact this
+/-! ### path tables -/
+
+theorem parsePt_encode (e : PtEntry) (h : PtOk e) (big : Bool) (more : Bytes) :
+    parsePt (e.encode big ++ more) big = some (e, (e.encode big).length) := by
+  have hil : (UInt8.ofNat e.ident.length).toNat = e.ident.length := by
+    rw [UInt8.toNat_ofNat']; have := h.ident; omega
+  have hlen : (e.encode big).length = 8 + e.ident.length + e.ident.length % 2 := by
+    unfold PtEntry.encode
+    cases big <;> simp <;> split <;> simp <;> omega
+  have hflat : e.encode big ++ more = [UInt8.ofNat e.ident.length, 0] ++ ((if big then beN 4 e.loc else leN 4 e.loc) ++
+      ((if big then beN 2 e.parent else leN 2 e.parent) ++ (e.ident ++ ((if e.ident.length % 2 > 0 then [0] else []) ++ more)))) := by
+    simp [PtEntry.encode, List.append_assoc]
+  have l4 : (if big then beN 4 e.loc else leN 4 e.loc).length = 4 := by cases big <;> simp
+  have l2 : (if big then beN 2 e.parent else leN 2 e.parent).length = 2 := by cases big <;> simp
+  have f_loc : slice (e.encode big ++ more) 2 4 = (if big then beN 4 e.loc else leN 4 e.loc) := by
+    rw [hflat]; simp [slice, List.take_append, l4]
+  have f_par : slice (e.encode big ++ more) 6 2 = (if big then beN 2 e.parent else leN 2 e.parent) := by
+    rw [hflat]; simp (disch := omega) [slice, List.drop_append, List.take_append, l4, l2, List.drop_eq_nil_of_le]
+  have f_id : slice (e.encode big ++ more) 8 e.ident.length = e.ident := by
+    rw [hflat]; simp (disch := omega) [slice, List.drop_append, List.take_append, l4, l2, List.drop_eq_nil_of_le]
+  have hr : e.encode big ++ more = UInt8.ofNat e.ident.length :: ((e.encode big).tail ++ more) := by
+    unfold PtEntry.encode; rfl
+  have hl2 : (e.encode big).length ≤ (e.encode big ++ more).length := by simp
+  generalize hb : e.encode big ++ more = b at *
+  unfold parsePt
+  rw [hr]
+  simp only []
+  rw [← hr, hil]
+  have hnot : ¬ (e.ident.length = 0 ∨ b.length < 8 + e.ident.length + e.ident.length % 2) := by
+    have := h.ident; omega
+  rw [if_neg hnot, f_loc, f_par, f_id, hlen]
+  have h1 : e.loc % 256 ^ 4 = e.loc := Nat.mod_eq_of_lt (by have := h.loc; omega)
+  have h2 : e.parent % 256 ^ 2 = e.parent := Nat.mod_eq_of_lt (by have := h.parent; omega)
+  cases big <;> simp [fromLE_leN, fromBE_beN, h1, h2]
+
+/-- **decode ∘ encode = id for path tables** (type L and type M), read with the size the descriptor announces -/
+theorem decodePt_encodePt (t : List PtEntry) (hok : ∀ e ∈ t, PtOk e) (big : Bool) :
+    decodePt (encodePt t big) (t.map (fun e => (e.encode big).length)).sum big = t := by
+  unfold decodePt encodePt
+  dsimp only
+  have hbody : ((t.map (fun e => e.encode big)).flatten).length = (t.map (fun e => (e.encode big).length)).sum := by
+    induction t with
+    | nil => rfl
+    | cons e rest ih => simp [ih (fun x hx => hok x (List.mem_cons_of_mem _ hx))]
+  rw [← hbody, List.take_left']
+  · generalize hfuel : ((t.map (fun e => e.encode big)).flatten).length + 1 = fuel
+    have hf : t.length < fuel := by
+      rw [← hfuel, hbody]
+      have : ∀ (l : List PtEntry), (∀ e ∈ l, PtOk e) → l.length ≤ (l.map (fun e => (e.encode big).length)).sum := by
+        intro l hl
+        induction l with
+        | nil => simp
+        | cons e rest ih =>
+          have hlen : 1 ≤ (e.encode big).length := by unfold PtEntry.encode; cases big <;> simp
+          have := ih (fun x hx => hl x (List.mem_cons_of_mem _ hx))
+          simp only [List.map_cons, List.sum_cons, List.length_cons]; omega
+      have := this t hok; omega
+    clear hfuel hbody
+    induction t generalizing fuel with
+    | nil =>
+      obtain ⟨f, rfl⟩ : ∃ f, fuel = f + 1 := ⟨fuel - 1, by simp at hf; omega⟩
+      simp [decodePtAux, parsePt]
+    | cons e rest ih =>
+      obtain ⟨f, rfl⟩ : ∃ f, fuel = f + 1 := ⟨fuel - 1, by omega⟩
+      simp only [List.map_cons, List.flatten_cons]
+      conv => lhs; unfold decodePtAux
+      rw [parsePt_encode e (hok e List.mem_cons_self) big]
+      simp only [List.drop_left']
+      congr 1
+      exact ih (fun x hx => hok x (List.mem_cons_of_mem _ hx)) f (by simp at hf; omega)
+  · rfl
 end Ps3.Spec.IsoDir
